@@ -364,6 +364,7 @@ def build(tier="quick", seed=0):
     cpl_ctl(b)
     quick_tides_rheology_site(b)
     quick_tides_pipeline(b)
+    compliance_helper(b)
     nonneg_ranges(b, tier)
     b.assume("sign / abs of a tidal mode are uninterpreted with abs(x) = sign(x) x, sign(0) = abs(0) = 0, abs(-x) = abs(x)")
     b.assume("-Im k_l enters as an uninterpreted function of (l, complex compliance); the compliance as an uninterpreted function of the frequency value (what compliance_dict_helper computes per unique frequency)")
@@ -819,6 +820,43 @@ def replay_pipeline(ob, res):
     except Exception:
         rec["confirmed"] = "exception" in r
     return rec
+
+
+def compliance_helper(b):
+    """compliance_dict_helper (what produces the per-frequency compliances the collapse reads): for every frequency signature, and only for those, the
+    compliance function evaluated at THAT frequency with (*live_inputs, *inputs) in this order; the njit typing dummy entry is gone from the result."""
+    FCC = "TidalPy/rheology/complex_compliance/complex_compliance.py"
+    try:
+        fn = Fn(FCC, "compliance_dict_helper")
+    except ExtractError as e:
+        b.subset_exits.append(str(e))
+        return
+    b.add_fn(fn)
+    from tpv.symex import Exec, SymExError
+    from tpv.terms import Cx
+    freqs = {(2, -2): R("w_a"), (1, 0): R("w_b"), (3, -2): R("w_c")}
+    live, inp = (R("compliance_0"), R("viscosity_0")), (R("alpha_0"), R("zeta_0"))
+    rec = []
+
+    def model(ex, node, *a_, **k_):
+        rec.append(tuple(a_))
+        return Cx(R(f"J_re_{len(rec)}"), R(f"J_im_{len(rec)}"))
+    ex = Exec(fn, globals_env={}, contracts={}, opts=dict(definedness=False))
+    try:
+        paths = ex.run(dict(tidal_frequencies=dict(freqs), compliance_func=model, live_inputs=live, inputs=inp))
+    except SymExError as e:
+        b.subset_exits.append(f"{fn.key}: {e}")
+        return
+    if len(paths) != 1 or paths[0].outcome != "return" or not isinstance(paths[0].value, dict):
+        b.subset_exits.append(f"{fn.key}: {[p_.outcome for p_ in paths]}")
+        return
+    out = paths[0].value
+    ok_keys = list(out.keys()) == list(freqs.keys())
+    ground(b, f"{fn.key}::ensures:keys", fn.key, "ensures the result has exactly the frequency signatures of the input, in their order (no dummy entry left)", ok_keys, detail=str(list(out.keys())))
+    ok_calls = len(rec) == len(freqs) and all(c_ == (w_,) + live + inp for c_, w_ in zip(rec, freqs.values()))
+    ground(b, f"{fn.key}::ensures:calls", fn.key, "ensures the compliance function is evaluated once per signature at that signature's frequency with (*live_inputs, *inputs)", ok_calls, detail=str(rec)[:300])
+    ok_vals = ok_keys and ok_calls and all(out[k_] is not None and str(out[k_]) == str(Cx(R(f"J_re_{i_ + 1}"), R(f"J_im_{i_ + 1}"))) for i_, k_ in enumerate(freqs))
+    ground(b, f"{fn.key}::ensures:values", fn.key, "ensures each signature maps to the value computed at its own frequency", ok_vals, detail=str({k_: str(v_) for k_, v_ in out.items()})[:300])
 
 
 _CTL_CODE = r'''
